@@ -135,10 +135,13 @@ impl HybridTimestamp {
 
     pub fn increment(self) -> Self {
         let timestamp = Timestamp::now();
-        if timestamp == self.0 {
-            Self(timestamp, self.1.increment())
-        } else {
+        if timestamp > self.0 {
             Self(timestamp, LamportTimestamp::default())
+        } else {
+            // The wall clock did not advance or even went backwards (clock adjustments, timestamp
+            // from a node with a faster clock): keep the wall-clock part and count logically to
+            // guarantee that the result is always larger than the previous timestamp.
+            Self(self.0, self.1.increment())
         }
     }
 
